@@ -7,6 +7,8 @@ from __future__ import annotations
 
 import contextlib
 import itertools
+import signal
+import time
 import warnings
 
 import numpy as np
@@ -50,13 +52,48 @@ def pin(seed: int):
         np.random.set_state(state)
 
 
+CALL_TIMEOUT = 30.0  # seconds per solver-backed toqito call
+
+
+class _CallTimeout(BaseException):
+    pass
+
+
+@contextlib.contextmanager
+def call_limit(seconds):
+    """Per-call time limit that nests inside tqv.core.time_limit (the outer timer is re-armed with what is left)."""
+    remaining, _ = signal.getitimer(signal.ITIMER_REAL)
+    if remaining and remaining <= seconds:
+        yield  # the enclosing case/step limit fires first anyway
+        return
+    old = signal.getsignal(signal.SIGALRM)
+    t0 = time.monotonic()
+
+    def handler(signum, frame):
+        raise _CallTimeout()
+
+    signal.signal(signal.SIGALRM, handler)
+    # re-fires every second: an exception raised by the handler inside a gc/weakref callback is swallowed by CPython
+    signal.setitimer(signal.ITIMER_REAL, seconds, 1.0)
+    try:
+        yield
+    finally:
+        signal.setitimer(signal.ITIMER_REAL, 0)
+        signal.signal(signal.SIGALRM, old)
+        if remaining:
+            signal.setitimer(signal.ITIMER_REAL, max(remaining - (time.monotonic() - t0), 0.01))
+
+
 def call_value(fn, *args, **kwargs):
     """Call a solver-backed toqito method; None when the solver did not deliver a usable value
-    (cvxpy SolverError, 'Solution may be inaccurate', non-finite optimum)."""
+    (cvxpy SolverError, 'Solution may be inaccurate', non-finite optimum, more than CALL_TIMEOUT seconds)."""
     with warnings.catch_warnings(record=True) as rec:
         warnings.simplefilter("always")
         try:
-            v = fn(*args, **kwargs)
+            with call_limit(CALL_TIMEOUT):
+                v = fn(*args, **kwargs)
+        except _CallTimeout:
+            return None
         except Exception as exc:  # noqa: BLE001
             if type(exc).__name__ == "SolverError" and (type(exc).__module__ or "").startswith("cvxpy"):
                 return None
@@ -216,12 +253,12 @@ def apply_tf(prob, pred, tf):
         out = np.empty_like(pred)
         for x in range(X):
             p = g.permutation(A)
-            out[p, :, x, :] = pred[:, :, x, :]
+            out[:, :, x, :][p, :, :] = pred[:, :, x, :]
         pred = out
         out = np.empty_like(pred)
         for y in range(Y):
             p = g.permutation(B)
-            out[:, p, :, y] = pred[:, :, :, y]
+            out[:, :, :, y][:, p, :] = pred[:, :, :, y]
         pred = out
     if tf.get("qperm"):
         px, py = g.permutation(X), g.permutation(Y)
@@ -322,7 +359,7 @@ def truncated_enumeration_value(prob, pred):
     G = strategies(B, Y)[:n_it]
     T = np.zeros((G.shape[0], A, X))
     for y in range(Y):
-        T += W[:, G[:, y], :, y].transpose(1, 0, 2)
+        T += W[:, G[:, y], :, y]  # (g, a, x): the advanced indices are separated by a slice
     return float(T.max(axis=1).sum(axis=1).max())
 
 
